@@ -453,6 +453,72 @@ func realComponent(r *emit.Rand, file bool) (string, map[string]any) {
 		map[string]any{"case": "ER", "backend": backend, "changes": firedN, "final": final, "after_destroy": after, "subscribers_after_destroy": lenAfter, "context_cancelled_before_destroy": cancelFirst}
 }
 
+// budgetSequence: a MemoryCache built with budget p0 follows cache.memory.memory_budget_percent through a sequence that
+// returns to earlier values; after every change (listeners idle) the effective limit must be the one observed the first
+// time that percentage was in force (max_cache_size is out of the way, so the limit IS the memory cap).
+func budgetSequence(r *emit.Rand) map[string]any {
+	cfg := config.NewDefault()
+	ctx, cancel := context.WithCancel(context.Background())
+	defer cancel()
+	p0 := emit.Pick(r, []int{50, 75, 30})
+	cfg.Cache.Memory.MemoryBudgetPercent.Stage(p0)
+	cfg.Cache.Memory.MemoryBudgetPercent.CommitStaged()
+	fromFile := r.Bool()
+	if fromFile {
+		// what a real start does: the configuration is decoded from its file
+		if err := config.VerifPersist(cfg); err == nil {
+			if loaded, err := config.VerifLoad(config.VerifConfigPath()); err == nil {
+				cfg = loaded
+			}
+		}
+	}
+	mc := cache.NewMemoryCache[int](cfg, p0, 1<<62, time.Hour, 4, ctx)
+	defer mc.Destroy()
+	p := &cfg.Cache.Memory.MemoryBudgetPercent
+	h := p.VerifEvent().VerifLast()
+	idle := func() bool {
+		_, running, pending := p.VerifEvent().VerifSubState(h)
+		return !running && pending == 0
+	}
+	limitOf := map[int]int64{p0: mc.VerifLimit()}
+	seq := []int{emit.Pick(r, []int{40, 10, 90}), p0, emit.Pick(r, []int{20, 60}), p0}
+	if r.Bool() {
+		seq = append([]int{p0}, seq...)
+	}
+	if r.Bool() {
+		seq = append([]int{0}, seq...) // the zero value of the setting's type, as the first change
+	}
+	var done []int
+	prevV, prevLimit := p0, limitOf[p0]
+	for _, v := range seq {
+		if r.Bool() {
+			status, err := config.UpdatePartialFromConfig(cfg, nested("cache.memory.memory_budget_percent", v))
+			if err != nil || status == config.UpdateStatusFailed {
+				panic(fmt.Sprintf("conf: valid budget update rejected: %v", err))
+			}
+		} else {
+			p.Stage(v)
+			p.CommitStaged()
+		}
+		done = append(done, v)
+		waitIdle(idle)
+		time.Sleep(200 * time.Microsecond)
+		got := mc.VerifLimit()
+		if want, seen := limitOf[v]; seen && got != want {
+			return map[string]any{"kind": "budget-not-followed", "built_with": p0, "changes": done,
+				"what": fmt.Sprintf("memory budget set to %d %% (setting reads %d): the cache uses a cap of %d bytes, the cap for %d %% is %d", v, p.Read(), got, v, want)}
+		} else if !seen {
+			limitOf[v] = got
+		}
+		if v != prevV && got == prevLimit {
+			return map[string]any{"kind": "budget-not-followed", "built_with": p0, "changes": done, "configuration_decoded_from_file": fromFile,
+				"what": fmt.Sprintf("memory budget changed from %d %% to %d %% (setting reads %d), but the cache's cap did not move (%d bytes)", prevV, v, p.Read(), got)}
+		}
+		prevV, prevLimit = v, got
+	}
+	return nil
+}
+
 // ---------- the stage ----------
 
 func runC19() {
@@ -528,6 +594,17 @@ func runC19() {
 		meta.Record(c, true, d)
 	}
 
+	// the memory budget: sequences of changes that come BACK to an earlier value (also the one the cache was built
+	// with); the budget in force must be the one last set. Decided here (direct): equal budgets give equal limits.
+	for trial := 0; trial < 6; trial++ {
+		if f := budgetSequence(r); f != nil {
+			meta.DirectFail(f)
+		}
+		meta.Count("budget_sequences", "run")
+	}
+	if meta.Direct != nil {
+		meta.Direct.Total = 6
+	}
 	w.Flush()
 	meta.Write(*flagOut, w.Files)
 	fmt.Printf("conf/C19: %d cases in %d files\n", w.Total, len(w.Files))
